@@ -258,7 +258,11 @@ class MCNP_Parser(Parser, metaclass=MetaBuilder):
         """
         sequence = p.shortcut_sequence
         if len(p) == 2:
-            sequence.end_padding = p.padding
+            if type(sequence) == syntax_node.ListNode:
+                # shortcuts chained onto each other: the padding follows the last one
+                sequence.nodes[-1].end_padding = p.padding
+            else:
+                sequence.end_padding = p.padding
         return sequence
 
     @_("NULL", "NULL padding")
